@@ -205,6 +205,9 @@ def build(spec, made=None):
         if order == "F":
             a = np.asfortranarray(a)
         return keep(a)
+    if tag == "zeros":
+        # a large, highly compressible member (compression ratio far above 200:1)
+        return np.zeros(int(spec[2]), dtype=np.dtype(spec[1]))
     if tag == "objarray":
         cells = [B(x) for x in spec[2]]
         a = np.empty(len(cells), dtype=object)
